@@ -24,6 +24,11 @@ PASSWORDS = ['alicepw', 'rootpw', 'carolpw', 'x', '', 'wrong', 'alicepw ',
              'ALICEPW', 'p' * 300, 'é']
 
 
+OTHER_MECHS = ['EXTERNAL', 'XOAUTH2', 'OAUTHBEARER', 'CRAM-MD5', 'ANONYMOUS',
+               'GSSAPI', 'DIGEST-MD5', 'SCRAM-SHA-1', 'NTLM', 'X', 'PLAIN2',
+               'LOGIN-', 'PLAINLOGIN', 'AUTH=PLAIN', '""']
+
+
 def b64(raw: bytes) -> str:
     return base64.b64encode(raw).decode()
 
@@ -42,6 +47,11 @@ def gen_attempt(rng: random.Random) -> dict:
         user = rng.choice(['alice', 'root', 'carol'])
         password = rng.choice(PASSWORDS)
     att = {'how': how, 'user': user, 'password': password, 'authzid': ''}
+    if rng.random() < 0.1:
+        # a mechanism the server does not offer, carrying credentials that
+        # may well be valid: never a way in
+        att['how'] = how = 'othermech'
+        att['mech'] = rng.choice(OTHER_MECHS)
     if how == 'plain' and rng.random() < 0.5:
         att['authzid'] = rng.choice(['alice', 'root', 'carol', 'nobody',
                                      user, 'ghost'])
@@ -83,7 +93,8 @@ def gen_auth_case(rng: random.Random, tier: str, backends=('dict',)) -> dict:
 
 def model_success(att: dict) -> tuple[bool, str | None]:
     """(authenticated?, identity) if the mechanism is available."""
-    if att.get('malformed') or att.get('fault'):
+    if att.get('malformed') or att.get('fault') or \
+            att.get('how') == 'othermech':
         return False, None
     user, password = att['user'], att['password']
     if SECRETS.get(user) is None or SECRETS[user] != password:
@@ -185,7 +196,11 @@ def run_imap(case: dict, trace: bool) -> dict:
                         att['password'] == '' else 'auto'})
             else:
                 mech = 'PLAIN' if how == 'plain' else 'LOGIN'
-                if how == 'plain':
+                if how == 'othermech':
+                    mech = att['mech']
+                    responses = [plain_response(att),
+                                 b64(att['password'].encode('utf-8')), '*']
+                elif how == 'plain':
                     responses = [plain_response(att)]
                 else:
                     responses = [b64(att['user'].encode('utf-8')),
@@ -358,6 +373,13 @@ def run_sieve(case: dict, trace: bool) -> dict:
                 if r is None:
                     # still waiting: finish the exchange
                     r = cl.command(b'"*"\r\n')
+            elif how == 'othermech':
+                r = cl.command(b'AUTHENTICATE ' + sieve_string(
+                    att['mech'].strip('"').encode(), 'quoted') + b' ' +
+                    sieve_string(plain_response(att).encode(), 'quoted') +
+                    b'\r\n')
+                if r is None:
+                    r = cl.command(b'"*"\r\n')
             else:
                 resp = plain_response(att).encode()
                 if att.get('malformed') == 'cancel':
@@ -378,8 +400,9 @@ def run_sieve(case: dict, trace: bool) -> dict:
             att = eff
             if want_ok:
                 ident = att['user']     # ManageSieve ignores the authzid
-            elif not att.get('malformed') and SECRETS.get(att['user']) \
-                    == att['password'] and att['user'] in SECRETS:
+            elif not att.get('malformed') and how != 'othermech' and \
+                    SECRETS.get(att['user']) == att['password'] and \
+                    att['user'] in SECRETS:
                 want_ok, ident = True, att['user']
             what = 'sieve attempt %d %r' % (attempts, att)
             if state['auth'] is not None:
@@ -428,7 +451,9 @@ class C09(Profile):
             'and absent names; 1-6 attempts per connection mixing LOGIN, '
             'AUTHENTICATE PLAIN (authzid in half of them) and AUTHENTICATE '
             'LOGIN with right/wrong/empty/300-character/non-ASCII secrets, '
-            'malformed base64, "*" cancel, missing NULs, empty response, EOF '
+            'malformed base64, "*" cancel, missing NULs, empty response, 10% '
+            'through one of 15 mechanism names the server does not offer '
+            '(EXTERNAL, XOAUTH2, CRAM-MD5, ...: never a way in), EOF '
             'or reset while the server waits; configurations TLS required '
             'or not x peer 127.0.0.1 or 1.2.3.4 x STARTTLS issued or not; '
             'IMAP (70%) and ManageSieve (30%); invalid_user_sleep left at '
